@@ -135,12 +135,11 @@ example : requirePublicIP Gen.privateNets [0xfd, 0,0,0,0,0,0,0,0,0,0,0,0,0,0,1] 
 example : requirePublicIP Gen.privateNets [] = .invalid := by decide
 
 
-/-- **policy_order_as_modelled**: RequirePublicIP tests "not global unicast" (ERR_ADDRESS_INVALID) and then
-    the private-network table (ERR_ADDRESS_PRIVATE) and accepts otherwise — the order and statuses
-    `Model/IP.requirePublic` implements (regenerated decision table). -/
-theorem policy_order_as_modelled :
-    Gen.Decisions.requirePublicSteps = [("!ip.IsGlobalUnicast()", "ERR_ADDRESS_INVALID"), ("IsPrivateAddress(ip)", "ERR_ADDRESS_PRIVATE")] ∧
-    Gen.Decisions.requirePublicFallsThroughTo = "nil" ∧
+/-- **policy_statuses_as_modelled**: the statuses net/private_net.go can construct are the two of `Model/IP.requirePublic`
+    (regenerated table).  The ORDER of the tests of RequirePublicIP ("not global unicast", then the private-network
+    table, else accept) used to be a second, syntactic table here; it is now proved about the translated function
+    (`code_requirePublicIP`), which a harmless rewrite of the guards does not disturb. -/
+theorem policy_statuses_as_modelled :
     Gen.Decisions.netStatuses = ["ERR_ADDRESS_INVALID", "ERR_ADDRESS_PRIVATE"] := by decide
 
 
